@@ -169,6 +169,15 @@ func switchSuite() []swModel {
 	add("partly ordered", "'a' 'x' / 'a' 'y' / 'b' e / 'c' e / 'd'", func(m *model) *Obj {
 		return m.alt(m.seq(m.char("a"), m.char("x")), m.seq(m.char("a"), m.char("y")), m.seq(m.char("b"), e(m)), m.seq(m.char("c"), e(m)), m.char("d"))
 	})
+	add("partly ordered", "[a-b] e / [b-c] e / [c-d] e / 'x' e / 'y' e / 'z'  (chained overlaps)", func(m *model) *Obj {
+		return m.alt(m.seq(m.rng("a", "b"), e(m)), m.seq(m.rng("b", "c"), e(m)), m.seq(m.rng("c", "d"), e(m)), m.seq(m.char("x"), e(m)), m.seq(m.char("y"), e(m)), m.char("z"))
+	})
+	add("partly ordered", "'x' e / [a-b] e / 'y' e / [b-c] e / [c-d] e / [d-f] e / 'z'  (chain interleaved with disjoint alternatives)", func(m *model) *Obj {
+		return m.alt(m.seq(m.char("x"), e(m)), m.seq(m.rng("a", "b"), e(m)), m.seq(m.char("y"), e(m)), m.seq(m.rng("b", "c"), e(m)), m.seq(m.rng("c", "d"), e(m)), m.seq(m.rng("d", "f"), e(m)), m.char("z"))
+	})
+	add("partly ordered", "[a-c] 'p' / 'x' e / [b-b] 'q' / 'y' e / [c-d] 'r' / 'z'  (first overlaps third and fifth only)", func(m *model) *Obj {
+		return m.alt(m.seq(m.rng("a", "c"), m.char("p")), m.seq(m.char("x"), e(m)), m.seq(m.rng("b", "b"), m.char("q")), m.seq(m.char("y"), e(m)), m.seq(m.rng("c", "d"), m.char("r")), m.char("z"))
+	})
 	add("case ending in a label", "'c' 'd' / 'a' 'b'? () / 'e' 'f'", func(m *model) *Obj {
 		return m.alt(m.seq(m.char("c"), m.char("d")), m.seq(m.char("a"), m.query(m.char("b")), m.nilNode()), m.seq(m.char("e"), m.char("f")))
 	})
@@ -430,6 +439,7 @@ func checkC02(c *Check) {
 		nRand = 400
 	}
 	swSpecs = append(swSpecs, randomSwitchModels(c.Seed+3, nRand)...)
+	swSpecs = append(swSpecs, overlapModels(c.Seed+5, nRand*2, c.Tier == "thorough")...)
 	rs, probs := runSwitchSuite(r, swSpecs, optSets)
 	for _, p := range probs {
 		c.Und("R-anchor", "tree.(*Tree).Compile/-switch block", "", p)
@@ -575,6 +585,103 @@ func inlineSuite() []modelSpec {
 // randomSwitchModels: choices of 3–5 alternatives, each starting with its own
 // letter group in one of a dozen shapes (so that FIRST sets are mostly
 // disjoint and the rewrite fires), drawn with a seed.
+// overlapModels: choices whose alternatives start with ranges that may overlap
+// (chains, stars, nested, equal), interleaved with disjoint ones. Alternative j
+// is range followed by j optional 't', so two alternatives that both accept an
+// input consume different prefixes: which of them the parser prefers is
+// visible in the outcome (opaque children cannot show a priority inversion —
+// as sets of possible outcomes 'e1 then e2' and 'e2 then e1' coincide).
+func overlapModels(seed int64, n int, exhaustive bool) []swModel {
+	rng := rand.New(rand.NewSource(seed))
+	letters := []string{"a", "b", "c", "d", "e", "f"}
+	type rg struct{ lo, hi int }
+	build := func(name string, rs []rg, disj []int) swModel {
+		rs2, disj2 := append([]rg{}, rs...), append([]int{}, disj...)
+		return swModel{Name: name, Hop: "overlapping alternatives (priority)", Build: func(m *model) int {
+			var alts []*Obj
+			j := 0
+			di := 0
+			extra := []string{"x", "y", "z"}
+			for pos := 0; j < len(rs2) || di < len(disj2); pos++ {
+				if di < len(disj2) && disj2[di] == pos {
+					alts = append(alts, m.seq(m.char(extra[di%3]), m.opaqueChild(true, false)))
+					di++
+					continue
+				}
+				if j >= len(rs2) {
+					// remaining disjoint alternatives go last
+					alts = append(alts, m.seq(m.char(extra[di%3]), m.opaqueChild(true, false)))
+					di++
+					continue
+				}
+				kids := []*Obj{m.rng(letters[rs2[j].lo], letters[rs2[j].hi])}
+				for t := 0; t < j; t++ {
+					kids = append(kids, m.query(m.char("t")))
+				}
+				if len(kids) == 1 {
+					alts = append(alts, kids[0])
+				} else {
+					alts = append(alts, m.seq(kids...))
+				}
+				j++
+			}
+			m.addRule("S", m.alt(alts...), 1)
+			return 0
+		}}
+	}
+	nameOf := func(rs []rg, disj []int) string {
+		var p []string
+		for j, r := range rs {
+			p = append(p, fmt.Sprintf("[%s-%s]%s", letters[r.lo], letters[r.hi], strings.Repeat(" 't'?", j)))
+		}
+		return fmt.Sprintf("%s  + %d disjoint at %v", strings.Join(p, " / "), len(disj), disj)
+	}
+	var out []swModel
+	if exhaustive {
+		// every triple of ranges over a..d, two disjoint alternatives behind
+		var all []rg
+		for lo := 0; lo < 4; lo++ {
+			for hi := lo; hi < 4; hi++ {
+				all = append(all, rg{lo, hi})
+			}
+		}
+		for _, a := range all {
+			for _, b := range all {
+				for _, c := range all {
+					rs := []rg{a, b, c}
+					out = append(out, build("triple "+nameOf(rs, []int{3, 4}), rs, []int{3, 4}))
+				}
+			}
+		}
+	}
+	for i := 0; i < n; i++ {
+		k := 2 + rng.Intn(3)
+		var rs []rg
+		for j := 0; j < k; j++ {
+			lo := rng.Intn(len(letters))
+			hi := lo + rng.Intn(len(letters)-lo)
+			if rng.Intn(3) == 0 {
+				hi = lo
+			}
+			rs = append(rs, rg{lo, hi})
+		}
+		nd := 1 + rng.Intn(3)
+		var disj []int
+		for d := 0; d < nd; d++ {
+			disj = append(disj, rng.Intn(k+nd))
+		}
+		sort.Ints(disj)
+		// positions must be distinct
+		for d := 1; d < len(disj); d++ {
+			if disj[d] <= disj[d-1] {
+				disj[d] = disj[d-1] + 1
+			}
+		}
+		out = append(out, build(fmt.Sprintf("#%d %s", i, nameOf(rs, disj)), rs, disj))
+	}
+	return out
+}
+
 func randomSwitchModels(seed int64, n int) []swModel {
 	rng := rand.New(rand.NewSource(seed))
 	groups := [][2]string{{"a", "b"}, {"d", "e"}, {"g", "h"}, {"j", "k"}, {"m", "n"}, {"p", "r"}}
